@@ -297,6 +297,13 @@ pub fn run_history<U: Uf>(ctx: &mut Ctx, universe: usize, ops: &[Op]) -> (u64, b
     (judged, big_union && op_after_clone)
 }
 
+/// Short mixed history for the sanitizer lanes (all three observation modes in one history).
+pub fn random_history_for_lanes(rng: &mut Rng, universe: usize, len: usize) -> Vec<Op> {
+    let mut ops = random_history(rng, universe, len / 2);
+    ops.extend(random_history(rng, universe, len / 2));
+    ops
+}
+
 fn random_history(rng: &mut Rng, universe: usize, len: usize) -> Vec<Op> {
     let mut ops = vec![];
     let mode = rng.below(3);
